@@ -22,11 +22,11 @@ META = {
     "scalar {0,-0.0,0.1,1/3,-2.5,1e-300,1e300,5e-324,123456789012345678,pi,-pi,nextafter(-pi)} one at a time, every quaternion slot x every unit quaternion of the alphabet (w<0, w=0, "
     "Hurwitz); (shapes) every multiset of <=3 edges from the 4 candidate edges of each world x every vertex-list permutation x edge-list rotations x id maps "
     "(negative, sparse, huge) + mixed 2-D/3-D graphs; (omega) every edge kind x information alphabet; (refuse) inexpressible content (R^n odometry, R^n->R^n landmark, SE(2) landmark "
-    "with non-identity offset) alone and at every position among expressible edges must raise; (cycles) 1..5 export/import cycles of every shape graph, each compared with the ORIGINAL. "
+    "with non-identity offset) alone and at every position among expressible edges must raise; (edit) export, edit every single numeric slot IN PLACE, export again: the second file must show the edit; (cycles) 1..5 export/import cycles of every shape graph, each compared with the ORIGINAL. "
     "Oracles: structure, every number bitwise (4 ulp for wrapped angles / renormalised measurement quaternions), chi2, and the file tokens re-parsed by the reference tokenizer. "
     "non-trivial = graph has at least one edge or an extreme scalar",
     "assumptions": ["real temp files in a private mkdtemp directory", "an SE(3) landmark edge whose offset is not registered in the graph's parameter table is outside the property's domain", "custom edges (no to_g2o) are outside the property's domain"],
-    "required_classes": ["slots2d", "slots3d", "quat_slot", "w_negative_measurement", "shape", "ids_special", "vertex_order_permuted", "omega", "refuse", "cycles", "offset_rotated", "shared_param", "mixed_world", "cross_term_information"],
+    "required_classes": ["edit_between_exports", "slots2d", "slots3d", "quat_slot", "w_negative_measurement", "shape", "ids_special", "vertex_order_permuted", "omega", "refuse", "cycles", "offset_rotated", "shared_param", "mixed_world", "cross_term_information"],
     "bounds": {"quick": "all slot substitutions; shapes with <=3 edges; 3 cycles", "thorough": "same + pairs of extreme scalars on vertex slots; 5 cycles"},
 }
 
@@ -198,7 +198,7 @@ SE2_OFFSETS = [[0.5, -0.25, 0.7], [0.5, 0.0, 0.0], [0.0, 0.0, 0.7], [0.0, 5e-324
 
 
 def chunks(tier, seed):
-    out = [("slots", "2d", 0), ("slots", "3d", 0), ("slots", "3d", 1), ("slots", "3d", 2), ("slots", "3d", 3), ("quat", "3d", 0), ("omega", "2d", 0), ("omega", "3d", 0), ("refuse", None, 0), ("mixed", None, 0)]
+    out = [("slots", "2d", 0), ("slots", "3d", 0), ("slots", "3d", 1), ("slots", "3d", 2), ("slots", "3d", 3), ("quat", "3d", 0), ("omega", "2d", 0), ("omega", "3d", 0), ("refuse", None, 0), ("mixed", None, 0), ("edit", None, 0)]
     for w in ("2d", "3d"):
         for vo in range(6):
             out.append(("shape", w, vo))
@@ -251,6 +251,14 @@ def run_chunk(chunk, tier, seed):
                     for im in range(len(ID_MAPS)):
                         for shared in ((False, True) if w == "3d" and any(x >= 2 for x in ms) else (False,)):
                             _do(acc, {"t": "shape", "world": w, "ms": ms, "vorder": list(vorder), "erot": erot, "idmap": im, "shared": shared, "cycles": cyc}, ctx)
+        elif typ == "edit":
+            # history: export once, edit an array IN PLACE (pose / measurement / information / offset parameter), export again
+            for world in ("2d", "3d"):
+                b = base_spec(world)
+                for path, isq in slots(b):
+                    if isq:
+                        continue
+                    _do(acc, {"t": "edit", "world": world, "path": path, "cycles": 1}, ctx)
         elif typ == "mixed":
             for ms2 in _multisets(4, 2):
                 for ms3 in _multisets(4, 2):
@@ -316,10 +324,51 @@ def spec_of(case):
     raise ValueError(t)
 
 
+def _eval_edit(case, ctx):
+    msgs = []
+    spec = base_spec(case["world"])
+    g, verts, edges = build(spec)
+    path = os.path.join(ctx["tmp"], "e.g2o")
+    g.to_g2o(path)  # first export (may leave formatted text behind)
+    p = case["path"]
+    # locate the live array and edit ONE element in place
+    if p[0] == "vertices":
+        arr, idx = np.asarray(verts[p[1]].pose), (p[3],)
+    elif p[0] == "edges" and p[2] == "z":
+        arr, idx = np.asarray(edges[p[1]].estimate), (p[3],)
+    elif p[0] == "edges" and p[2] == "om":
+        arr, idx = np.asarray(edges[p[1]].information), (p[3], p[4])
+    else:
+        key = (spec["params"][p[1]]["tag"], spec["params"][p[1]]["id"])
+        arr, idx = np.asarray(I.graph_params(g)[key].value), (p[3],)
+        # the landmark edges that reference this parameter share its value by construction of the domain
+        for e in edges:
+            if isinstance(e, I.EdgeLandmark) and e.offset_id == key[1] and key[0] == "PARAMS_SE3OFFSET":
+                np.asarray(e.offset)[idx] = np.asarray(e.offset)[idx] * 0.5 + 0.125
+    arr[idx] = arr[idx] * 0.5 + 0.125
+    if p[0] == "edges" and p[2] == "om" and p[3] != p[4]:
+        arr[p[4], p[3]] = arr[idx]
+    want = g2oio.describe_graph(g)
+    g.to_g2o(path)
+    with open(path) as f:
+        text = f.read()
+    ref = _ref_as_desc(RG.parse(text))
+    m2 = []
+    g2oio.compare(ref, _orig_for_writer(want), m2, quat_norm_est=False)
+    msgs.extend("second export after an in-place edit of %r: file says: %s" % (p, m) for m in m2)
+    back = g2oio.describe_graph(I.Graph.from_g2o(path))
+    m3 = []
+    g2oio.compare(back, _orig_for_reader(want), m3)
+    msgs.extend("second export after an in-place edit of %r, re-import: %s" % (p, m) for m in m3)
+    return msgs, {"classes": ["edit_between_exports"], "ops": 3, "parsed": 1, "outcome": "edit"}
+
+
 def _eval(case, ctx):
     try:
         if case["t"] == "refuse":
             return _eval_refuse(case, ctx)
+        if case["t"] == "edit":
+            return _eval_edit(case, ctx)
         return _eval_roundtrip(case, ctx)
     except Exception as ex:
         import traceback
